@@ -102,21 +102,6 @@ def handle : List String → String
     match parseMerge rest with
     | some cs => toHex (mergeChunks cs)
     | none => "bad-op"
-  | [cmd, p, m, cs, seq, chan, tok, req, ln, rn, body] =>
-    if cmd ≠ "send" ∧ cmd ≠ "sendhex" then "bad-op" else
-    match modeOf m, cs.toInt?, seq.toInt?, chan.toNat?, tok.toNat?, req.toNat? with
-    | some mode, some cs, some seq, some chan, some tok, some req =>
-      match unhexFast ln, unhexFast rn, unhexFast body with
-      | some ln, some rn, some body =>
-        match mkSide p mode ln rn with
-        | some s =>
-          let r := sendMessage s (maxBodyOf s.algo cs) seq typeMSG chan tok req body
-          resStr r.2 fun ws =>
-            if cmd = "send" then s!"ok {r.1} {ws.length} " ++ " ".intercalate (ws.map chunkDigest)
-            else s!"ok {r.1} " ++ " ".intercalate (ws.map toHex)
-        | none => "bad-op"
-      | _, _, _ => "bad-op"
-    | _, _, _, _, _, _ => "bad-op"
   | ["asymparams", ls, rs, pad] =>
     match ls.toNat?, rs.toNat?, pad.toNat? with
     | some ls, some rs, some pad =>
@@ -170,6 +155,21 @@ def handle : List String → String
         | (_, some r, left) =>
           resStr r fun o => s!"ok {o.requestID} {o.channelID} {o.body.length} {sha256Hex o.body} {left.length}"
       | none => "bad-op"
+    | _, _, _, _, _, _ => "bad-op"
+  | [cmd, p, m, cs, seq, chan, tok, req, ln, rn, body] =>
+    if cmd ≠ "send" ∧ cmd ≠ "sendhex" then "bad-op" else
+    match modeOf m, cs.toInt?, seq.toInt?, chan.toNat?, tok.toNat?, req.toNat? with
+    | some mode, some cs, some seq, some chan, some tok, some req =>
+      match unhexFast ln, unhexFast rn, unhexFast body with
+      | some ln, some rn, some body =>
+        match mkSide p mode ln rn with
+        | some s =>
+          let r := sendMessage s (maxBodyOf s.algo cs) seq typeMSG chan tok req body
+          resStr r.2 fun ws =>
+            if cmd = "send" then s!"ok {r.1} {ws.length} " ++ " ".intercalate (ws.map chunkDigest)
+            else s!"ok {r.1} " ++ " ".intercalate (ws.map toHex)
+        | none => "bad-op"
+      | _, _, _ => "bad-op"
     | _, _, _, _, _, _ => "bad-op"
   | _ => "bad-op"
 
